@@ -155,6 +155,13 @@ func init() {
 			fails = append(fails, runFree(p, iters)...)
 			total += iters
 		}
+		// the receive loop of real gossip instances on loopback sockets, under
+		// the race detector too
+		rn, rfails := realNodeScenarios()
+		total += rn
+		for _, f := range rfails {
+			fails = append(fails, f[0]+": "+f[1])
+		}
 		fmt.Printf("race pass: %d free-running executions, failures=%v\n", total, fails)
 		if len(fails) > 0 {
 			return 3
